@@ -47,16 +47,43 @@ var named = map[string]string{
 	"<BAD>": "\xff", "<PUA>": "\uE000",
 }
 
+// <NAME> inside a piece or a word: a named byte sequence, or <U+XXXX> = the UTF-8 encoding of that code point.
+// <W> (the wildcard term in the name of an atom) is not a spelling and stays as it is.
+var nameRe = regexp.MustCompile(`<(U\+[0-9A-F]{4,6}|[A-Z]{2,3})>`)
+
+func unname(s string) string {
+	if !strings.Contains(s, "<") {
+		return s
+	}
+	return nameRe.ReplaceAllStringFunc(s, func(m string) string {
+		if v, ok := named[m]; ok {
+			return v
+		}
+		if strings.HasPrefix(m, "<U+") {
+			if cp, err := strconv.ParseUint(m[3:len(m)-1], 16, 32); err == nil {
+				return string(rune(cp))
+			}
+		}
+		return m
+	})
+}
+
 func spell(pieces []string) string {
 	var b strings.Builder
 	for _, p := range pieces {
-		if s, ok := named[p]; ok {
-			b.WriteString(s)
-		} else {
-			b.WriteString(p)
-		}
+		b.WriteString(unname(p))
 	}
 	return b.String()
+}
+
+// the words of the specification (atoms, expected tree) in bytes
+func (t *Tree) unname() {
+	if t == nil {
+		return
+	}
+	t.W = unname(t.W)
+	t.L.unname()
+	t.R.unname()
 }
 
 type Tree struct {
@@ -195,10 +222,22 @@ func shape(n *parser.ASTNode) (*Tree, error) {
 	}
 	switch v := n.Value.(type) {
 	case *parser.Literal:
-		if len(v.Terms) != 1 || v.Terms[0].Kind != parser.TermText {
-			return nil, fmt.Errorf("leaf %s is not a one-word literal", v.String())
+		// the name of the atom: the text terms as they are, <W> for a wildcard term (Parser.tla PatOf)
+		if len(v.Terms) == 0 {
+			return nil, fmt.Errorf("leaf on field %q without terms", v.Field)
 		}
-		return &Tree{Op: "lit", F: v.Field, W: v.Terms[0].Data}, nil
+		w := ""
+		for _, tm := range v.Terms {
+			switch {
+			case tm.Kind == parser.TermText:
+				w += tm.Data
+			case tm.IsWildcard():
+				w += "<W>"
+			default:
+				return nil, fmt.Errorf("leaf %s has a term that is neither text nor wildcard", v.String())
+			}
+		}
+		return &Tree{Op: "lit", F: v.Field, W: w}, nil
 	case *parser.Logical:
 		op, nch := "", 2
 		switch v.Operator {
@@ -247,6 +286,20 @@ func eval(t *Tree, a map[[2]string]bool) bool {
 		return eval(t.R, a) && !eval(t.L, a)
 	}
 	panic("bad tree")
+}
+
+// strangers lists the leaves of the returned tree that are not atoms of the written expression.
+func strangers(t *Tree, atoms map[[2]string]bool, out []string) []string {
+	if t == nil {
+		return out
+	}
+	if t.Op == "lit" {
+		if !atoms[[2]string{t.F, t.W}] {
+			out = append(out, strconv.QuoteToASCII(t.F+":"+t.W))
+		}
+		return out
+	}
+	return strangers(t.R, atoms, strangers(t.L, atoms, out))
 }
 
 func table(t *Tree, atoms [][2]string) []int {
@@ -333,6 +386,12 @@ func allowedHas(allowed []string, o string) bool {
 // ---------------------------------------------------------------- case kinds
 func (w *worker) runSem(n int, c *Case, st *stats) {
 	q := spell(c.Q)
+	atomSet := map[[2]string]bool{}
+	for i := range c.Atoms {
+		c.Atoms[i][1] = unname(c.Atoms[i][1])
+		atomSet[c.Atoms[i]] = true
+	}
+	c.AST.unname()
 	typed, err := semMapping(c.Fields)
 	if err != nil {
 		emit(map[string]any{"infra": err.Error()})
@@ -377,6 +436,12 @@ func (w *worker) runSem(n int, c *Case, st *stats) {
 		got, err := shape(ast)
 		if err != nil {
 			emit(map[string]any{"n": n, "what": "returned tree", "fn": r.fn, "map": r.mp, "got": err.Error(), "q": q})
+			continue
+		}
+		if st := strangers(got, atomSet, nil); len(st) > 0 {
+			// a term that is none of the written words: the query depends on something the expression does not name
+			emit(map[string]any{"n": n, "what": "returned tree", "fn": r.fn, "map": r.mp,
+				"got": "leaf " + strings.Join(st, ", ") + " is not a word of the expression", "q": q, "tree": got})
 			continue
 		}
 		if tt := table(got, c.Atoms); !reflect.DeepEqual(tt, c.TT) {
